@@ -38,6 +38,48 @@ def state_names(F):
     return [v['name'] for v in a['variants']] if a else None
 
 
+def psm_flags(F):
+    """Boolean configuration fields of PlaybackStateManager and, per constructor, their constant values:
+    -> (flag names, {constructor path: {flag: 'true'|'false'}})"""
+    a = F.adt(PSM)
+    flags = [f['name'] for f in a['variants'][0]['fields'] if f['ty'] == 'bool'] if a else []
+    ctors = {}
+    for b in F.bodies:
+        if b.krate != 'kira' or not b.path.startswith(PSM + '::'):
+            continue
+        if any(nm == 'self' for l, nm in b.names.items() if 1 <= l <= b.arg_count):
+            continue
+        vals = {}
+        for bb, si, s in b.stmts():
+            if s['k'] == 'assign' and s['rv']['k'] == 'agg' and s['rv'].get('adt') == PSM:
+                for fn, op in zip(s['rv']['fields'], s['rv']['ops']):
+                    if fn in flags:
+                        d = describe(b, op, at=bb)
+                        vals[fn] = {'True': 'true', 'False': 'false'}.get(d, '?')
+        if vals or any((callee_path(t) or '').startswith(PSM + '::new') for _, t in b.calls()):
+            ctors[b.path] = vals
+    return flags, ctors
+
+
+def owner_bindings(F):
+    """Which constructor each owner class uses -> {'sound': {flag: value}, 'track': {...}}"""
+    flags, ctors = psm_flags(F)
+    out = {}
+    problems = []
+    for b in F.bodies:
+        if b.krate != 'kira' or b.path.startswith(PSM):
+            continue
+        for bb, t in b.calls():
+            cp = callee_path(t) or ''
+            if cp in ctors:
+                cls = 'track' if b.path.startswith('track::') else ('sound' if b.path.startswith('sound::') else 'other')
+                vals = ctors[cp]
+                if cls in out and out[cls] != vals:
+                    problems.append('%s builds its PlaybackStateManager with %s, other %s code with different flags' % (b.path, cp, cls))
+                out[cls] = vals
+    return flags, out, problems
+
+
 def make_summaries(F, names):
     """Summaries for same-impl callees that take &mut self (here: resume called from update)."""
     def summ(method):
@@ -46,6 +88,9 @@ def make_summaries(F, names):
             if body is None:
                 return [dict(env, **{ST: frozenset(['?'])})]
             tracked = {ST: ('State', env.get(ST, frozenset(names)), names)}
+            for k2, v2 in env.items():
+                if isinstance(k2, str) and k2.startswith('(*self).') and k2 != ST:
+                    tracked[k2] = ('flag', v2)
             # bind enum-valued arguments that are literal variants at the call site
             for i, a in enumerate(term['args']):
                 d = describe(caller, a)
@@ -63,14 +108,15 @@ def make_summaries(F, names):
             # dedupe
             uniq = {}
             for e in outs:
-                uniq[tuple(sorted((k, tuple(sorted(v))) for k, v in e.items()))] = e
+                uniq[tuple(sorted((k, tuple(sorted(v))) for k, v in e.items() if isinstance(k, str)))] = e
             return list(uniq.values())
         return f
     return {'%s::%s' % (PSM, m): summ(m) for m in ('resume', 'pause', 'stop', 'mark_as_stopped')}
 
 
-def extract(F, method, names, arg_binding=None):
-    """-> {from_state: [(to_states frozenset, ret, decisions)]}"""
+def extract(F, method, names, arg_binding=None, flags=None):
+    """-> {from_state: [(to_states frozenset, ret, decisions)]}
+    flags: {flag field name: 'true'|'false'} constructor-time configuration of the manager."""
     body = F.body('%s::%s' % (PSM, method))
     if body is None:
         return None
@@ -78,6 +124,8 @@ def extract(F, method, names, arg_binding=None):
     summaries = make_summaries(F, names)
     for s in names:
         tracked = {ST: ('State', frozenset([s]), names)}
+        for fl, val in (flags or {}).items():
+            tracked['(*self).' + fl] = ('flag', frozenset([val] if val in ('true', 'false') else ['true', 'false']))
         if arg_binding:
             for an, var in arg_binding.items():
                 tracked[an] = ('arg', var)
@@ -109,8 +157,13 @@ def run(ctx, R, tier):
                ('update', 'update', None)]
     n_edges = 0
     rels = {}
+    flag_names, bindings, problems = owner_bindings(F)
+    R.check(not problems and 'sound' in bindings, 'B.SM.extract', 'constructor',
+            '; '.join(problems) or 'no PlaybackStateManager constructor call found in the sound code',
+            detail={'flags': flag_names, 'sound': bindings.get('sound'), 'track': bindings.get('track')})
+    sflags = bindings.get('sound', {})
     for label, m, binding in methods:
-        rel = extract(F, m, names, binding)
+        rel = extract(F, m, names, binding, flags=sflags)
         if not R.check(rel is not None, 'B.SM.extract', 'anchor:' + m, 'method %s::%s not found' % (PSM, m)):
             continue
         rels[label] = rel
